@@ -6,6 +6,28 @@ from pathlib import Path
 
 VERIF = Path(__file__).resolve().parents[2]
 
+# coverage added after round 4 of the seeded changes (DESIGN.md 10.3), appended to the level text
+ADDED4 = {
+    "C01": "Cube.from_grid with either align_corners argument; the homogeneous point matrix applied to points and vectors through core.linalg / core.affine",
+    "C02": "caller-owned tensor/array arguments (unchanged, reusable), Image/ImageBatch accessors, Image.read of NIfTI files tilted out of the axial plane",
+    "C03": "every resize also through Grid.cube().grid(size=/shape=)",
+    "C04": "constant paddings of either sign on the sampling route; flow fields of every axes kind sampled on the derived grids",
+    "C05": "negative constant padding; TransformImage/AlignImage without transform; own-grid sampling through SampleImage for every axes",
+    "C06": "PointSetTransformer given only input grid/axes; data(arg) copies of evaluated transforms",
+    "C08": "homogeneous_matrix with offsets for every operand form; small rotation angles around the series-expansion switch (Rodrigues oracle in the harness)",
+    "C10": "normalize/denormalize_flow size forms and two-sample axes; FlowField.sitk/from_sitk/write/read with explicit axes",
+    "C11": "exponential of fields stored with any axes; SVF inverse displacement buffers by four routes; expv leaves its input unchanged",
+    "C12": "B-spline derivatives between the coefficients (stride > 1)",
+    "C13": "every finite-difference / Gaussian scheme in the bracket (unit covariance, interior exactness); logv with exp_steps=0; inputs unchanged",
+    "C14": "2-D derivative orders up to 2 per axis; spatial_derivatives(mode='bspline') with every spacing form",
+    "C15": "tensor-valued options, dimension subsets and ignore_index in the write-set sweep",
+    "C16": "Huber/smooth-L1 module norms; patch-wise losses with masks of every dtype",
+    "C17": "gradient norms with p in {0,1,3,4} and q in {None,0,1/2,1,2} (CubGrad/QuartGrad/SumGrad in the spec); loss classes with every option on the 'none' map",
+    "C18": "chains in which sitk()/from_sitk()/write()/read() name a vector representation",
+    "C19": "empty selections along the batch dimension; collation of flow fields with mixed axes",
+    "C20": "transforms with predicted parameters; expv(steps=0); gradients w.r.t. the target; the source/logits/data-named losses (NCC, LCC, WLCC, *_with_logits, bspline_bending_loss)",
+}
+
 # property -> (engine modules, technique, level text, level note, design ref)
 CLAIMED = {
     "C01": (
@@ -250,6 +272,8 @@ def build() -> dict:
         pid = p["id"]
         if pid in CLAIMED:
             eng, tech, text, note, ref = CLAIMED[pid]
+            if pid in ADDED4:
+                text = text + "; since round 4 of the seeded changes also: " + ADDED4[pid]
             checks.append(
                 dict(
                     property_id=pid,
